@@ -208,7 +208,9 @@ def run(ctx):
         extra.append({"seed": ctx.seed * 100000 + 700000 + r, "n": 1600, "pi0": 0.5, "sep": [2.0, 3.0][r % 2], "folds": 2 + r % 3,
                       "est": "memo", "nfiles": 2, "group": "memo+2files"})
         extra.append({"seed": ctx.seed * 100000 + 800000 + r, "n": 1500, "pi0": 0.5, "sep": [2.0, 3.0][r % 2], "folds": 2 + r % 3,
-                      "est": "memo", "refeed_seed": 1 + r, "refeed_reverse": bool(r % 2), "group": "memo+reseed"})
+                      "est": "memo", "refeed_seed": 1 + r, "group": "memo+reseed"})
+        extra.append({"seed": ctx.seed * 100000 + 820000 + r, "n": 1500, "pi0": 0.5, "sep": [2.0, 3.0][r % 2], "folds": 3 + r % 3,
+                      "est": "memo", "refeed_seed": ctx.seed * 100000 + 820000 + r, "refeed_reverse": True, "group": "memo+reversed"})
         # held-out scoring in several prediction chunks (the default chunk holds 700000 rows)
         extra.append({"seed": ctx.seed * 100000 + 850000 + r, "n": 1500, "pi0": 0.5, "sep": [2.0, 3.0][r % 2], "folds": 2 + r % 3,
                       "est": "memo", "pred_chunk": [170, 333, 700][r % 3], "group": "memo+chunks"})
@@ -227,7 +229,7 @@ def run(ctx):
     # ---- FdrTrace groups: (learner, level, alpha) over replicates
     traces, meta = [], []
     failed_runs = sum(1 for s, r in zip(specs, res) if r["raised"])
-    for est in learners + ["memo+cap", "paired-ties/feat", "paired-ties/tree", "memo+2files", "memo+reseed", "memo+chunks", "memo+leak"]:      # one group per learner: a mixture of learners would inflate the SE
+    for est in learners + ["memo+cap", "paired-ties/feat", "paired-ties/tree", "memo+2files", "memo+reseed", "memo+reversed", "memo+chunks", "memo+leak"]:      # one group per learner: a mixture of learners would inflate the SE
         sel = [r for s, r in zip(specs, res) if (s.get("group") or (s["est"] + ("+leak" if s.get("leak") else ""))) == est and not r["raised"]]
         if len(sel) < 2:
             continue
